@@ -123,6 +123,12 @@ func vpRefreshWorld() (*vpWorld, error) {
 		return nil, err
 	}
 	w.get(j, "/warm")
+	// a second proxy instance on the same Redis and provider (horizontal deployment): every other request of a behaviour goes to it
+	tw, err := vpNewWorld(&vpCfg{Store: "redis", Refresh: 3600, Legacy: map[string]bool{"passAccessToken": true}, shareRedis: w.mr, shareIdP: w.idp})
+	if err != nil {
+		return nil, err
+	}
+	w.twin = tw
 	return w, nil
 }
 
@@ -239,7 +245,11 @@ func vpRunRefreshBehaviour(w *vpWorld, mode string, stale bool, n int, steps []v
 	results := make([]*vpResp, n+1)
 	start := func(r int) {
 		go func() {
-			resp := w.do(vpReq{Target: "/private", Cookie: cookie})
+			inst := w
+			if w.twin != nil && r%2 == 0 {
+				inst = w.twin
+			}
+			resp := inst.do(vpReq{Target: "/private", Cookie: cookie})
 			results[r] = resp
 			gen := -1
 			if resp.UpLast != nil {
